@@ -56,6 +56,9 @@ func NewReport(prop, tier string) *Report {
 }
 
 func (r *Report) add(rule, key, pos, status, detail string, facts ...string) {
+	if os.Getenv("PLVERIF_ALL") != "" {
+		fmt.Printf("  %s [%s] %s at %s: %s\n", status, rule, key, pos, detail)
+	}
 	r.Obls = append(r.Obls, Obligation{Rule: rule, Key: key, Pos: pos, Status: status, Detail: detail, Facts: facts})
 }
 
